@@ -2,7 +2,10 @@ module verifharness
 
 go 1.22
 
-require github.com/vektah/gqlparser/v2 v2.5.0
+require (
+	github.com/vektah/gqlparser/v2 v2.5.0
+	gopkg.in/yaml.v3 v3.0.1
+)
 
 require github.com/agnivade/levenshtein v1.2.1 // indirect
 
